@@ -77,6 +77,7 @@ def jobs(tier, seed):
 
 
 def run_job(job, deadline):
+    mc.set_group_order(job["id"])
     acc = JobAcc(job)
     kind = job["kind"]
     if kind == "parity":
@@ -194,12 +195,20 @@ def _bgl(acc, job, deadline):
     y, groups = job["y"], job["groups"]
     n = len(y)
     ex = {"y": y, "groups": groups}
-    lo, hi = (0, 1)
+    sym_range = job["loss"] != "zeroone" and (sum(groups) + n) % 2 == 0  # half of the jobs: the value range [min_val, max_val] of the loss is symbolic
+    rng = {}
 
     def mkloss():
+        lo, hi = rng["lo"], rng["hi"]
         return {"square": lambda: red.SquareLoss(lo, hi), "absolute": lambda: red.AbsoluteLoss(lo, hi), "zeroone": lambda: red.ZeroOneLoss()}[job["loss"]]()
 
     def run():
+        if sym_range:
+            rng["lo"], rng["hi"] = real("lo", -2, 2), real("hi", -2, 3)
+            core.cur().assume(rng["lo"].e < rng["hi"].e)
+        else:
+            rng["lo"], rng["hi"] = 0, 1
+        lo, hi = rng["lo"], rng["hi"]
         h = [real(f"h{i}", -1, 2) for i in range(n)]
         ub = real("ub", 0)
         m = red.BoundedGroupLoss(mkloss(), upper_bound=ub)
@@ -275,6 +284,7 @@ def replay(cex):
     from fractions import Fraction as Fr
 
     job, mdl, ex = cex["job"], cex["model"], cex["extra"]
+    mc.set_group_order(job["id"])
     kind = job["kind"]
     bad = []
     if kind in ("parity", "mf"):
@@ -338,12 +348,13 @@ def replay(cex):
     n = len(y)
     h = [float(F(mdl.get(f"h{i}", "0"))) for i in range(n)]
     ub = float(F(mdl.get("ub", "0")))
-    mk = {"square": lambda: red.SquareLoss(0, 1), "absolute": lambda: red.AbsoluteLoss(0, 1), "zeroone": lambda: red.ZeroOneLoss()}[job["loss"]]
+    lo_, hi_ = (float(F(mdl["lo"])), float(F(mdl["hi"]))) if "lo" in mdl else (0.0, 1.0)
+    mk = {"square": lambda: red.SquareLoss(lo_, hi_), "absolute": lambda: red.AbsoluteLoss(lo_, hi_), "zeroone": lambda: red.ZeroOneLoss()}[job["loss"]]
     m = red.BoundedGroupLoss(mk(), upper_bound=ub)
     X = pd.DataFrame({"f": list(range(n))})
     m.load_data(X, y, sensitive_features=[mc.GROUP_NAMES[g] for g in groups])
     g = m.gamma(lambda X: pd.Series(h))
-    clip = lambda v: min(max(v, 0), 1)
+    clip = lambda v: min(max(v, lo_), hi_)
     loss = [(clip(y[i]) - clip(h[i])) ** 2 if job["loss"] == "square" else abs(clip(y[i]) - clip(h[i])) for i in range(n)]
     for k in set(groups):
         want = sum(loss[i] for i in range(n) if groups[i] == k) / sum(1 for i in range(n) if groups[i] == k)
